@@ -96,3 +96,17 @@ Theorem C18_adts_junk_188_refused :
   decode_adts (junk_zero 188 ++ encode_adts (len_header 371)) = Err.
 Proof. exact adts_junk_188_refused. Qed.
 Print Assumptions C18_adts_junk_188_refused.
+
+(* ADTSHeader.Frequency() returns uint16.  Exact under the guard f < 65536 ... *)
+Theorem C18_adts_frequency_exact :
+  forall (f : Z) (ch pl : N) (h : adts),
+    new_adts f ch AAClc pl = Ok h -> (f < 65536)%Z -> Z.of_N (adts_frequency h) = f.
+Proof. exact adts_frequency_exact. Qed.
+Print Assumptions C18_adts_frequency_exact.
+
+(* ... and refuted without it: the table frequencies 88200 / 96000 come back as 22664 / 30464
+   (known finding C18-F2, replayed on the real code by the search) *)
+Theorem C18_adts_frequency_refuted :
+  exists f h, new_adts f 2 AAClc 0 = Ok h /\ Z.of_N (adts_frequency h) <> f.
+Proof. exact adts_frequency_refuted. Qed.
+Print Assumptions C18_adts_frequency_refuted.
